@@ -59,7 +59,8 @@ Fixpoint index_assign {V} (pt : list nat) (vals : list V) (old : list V) : list 
 
 (* section means at Z:  res = _sum_by_group(idx_pit, ones, connected, values); connected_ind = res[2] > 0.99;
    pt = argsort(table index)[connected_ind]; res_table[pt] = res[3][connected_ind] / res[1][connected_ind] *)
-Definition place_mean (use_numba : bool) (labels idx_pit : list Z) (conn : list bool) (vals old : list Z) : list Z :=
+(* as of /repo 08a8961 the entry "dp_frict_loss" is not divided: [is_sum] = (entry == "dp_frict_loss") *)
+Definition place_mean (is_sum use_numba : bool) (labels idx_pit : list Z) (conn : list bool) (vals old : list Z) : list Z :=
   let ones := map (fun _ => 1) idx_pit in
   let ci := map (fun b : bool => if b then 1 else 0) conn in
   let r := sbg_cols_Z use_numba true idx_pit [ones; ci; vals] in
@@ -68,7 +69,8 @@ Definition place_mean (use_numba : bool) (labels idx_pit : list Z) (conn : list 
   let sums := nth 2 (snd r) [] in
   let cmask := map (fun c => 0 <? c) con in
   let pt := select cmask (argsort labels) in
-  index_assign pt (map (fun p => fst p / snd p) (combine (select cmask sums) (select cmask cnt))) old.
+  index_assign pt (map (fun p : Z * Z => if is_sum then fst p else fst p / snd p)
+                       (combine (select cmask sums) (select cmask cnt))) old.
 
 (* ------------------------------------------------------------------ table structure *)
 (* a row block: [pre] sections before the distinguished one, [post] after it *)
@@ -137,9 +139,9 @@ Record ext_case := {
   ec_numba : bool; ec_labels : list Z; ec_secs : list nat; ec_idx_pit : list Z; ec_conn : list bool;
   ec_from_ext : list bool; ec_to_ext : list bool;
   ec_switched : list bool;
-  ec_v_from : list Z; ec_v_to : list Z; ec_v_mean : list Z; ec_v_last : list Z;
+  ec_v_from : list Z; ec_v_to : list Z; ec_v_mean : list Z; ec_v_sum : list Z; ec_v_last : list Z;
   ec_old : list Z;                                   (* previous content of the result column (a sentinel) *)
-  ec_res_from : list Z; ec_res_to : list Z; ec_res_mean : list Z; ec_res_last : list Z }.
+  ec_res_from : list Z; ec_res_to : list Z; ec_res_mean : list Z; ec_res_sum : list Z; ec_res_last : list Z }.
 
 Definition ext_case_ok (c : ext_case) : bool :=
   zl_eqb (idx_pit_of (ec_labels c) (ec_secs c)) (ec_idx_pit c)
@@ -148,7 +150,8 @@ Definition ext_case_ok (c : ext_case) : bool :=
   && ozl_eqb (place_ext (ec_conn c) (ec_from_ext c) (ec_v_from c) (ec_old c)) (ec_res_from c)
   && ozl_eqb (place_ext (ec_conn c) (ec_to_ext c) (ec_v_to c) (ec_old c)) (ec_res_to c)
   && ozl_eqb (place_outlet 0 (ec_idx_pit c) (ec_conn c) (ec_switched c) (ec_v_last c) (ec_old c)) (ec_res_last c)
-  && zl_eqb (place_mean (ec_numba c) (ec_labels c) (ec_idx_pit c) (ec_conn c) (ec_v_mean c) (ec_old c)) (ec_res_mean c)
+  && zl_eqb (place_mean false (ec_numba c) (ec_labels c) (ec_idx_pit c) (ec_conn c) (ec_v_mean c) (ec_old c)) (ec_res_mean c)
+  && zl_eqb (place_mean true (ec_numba c) (ec_labels c) (ec_idx_pit c) (ec_conn c) (ec_v_sum c) (ec_old c)) (ec_res_sum c)
   (* and the property itself, row by row *)
   && zl_eqb (expect_rows 0 (first_blocks (ec_secs c)) (ec_conn c) (ec_v_from c) (ec_old c)) (ec_res_from c)
   && zl_eqb (expect_rows 0 (last_blocks (ec_secs c)) (ec_conn c) (ec_v_to c) (ec_old c)) (ec_res_to c)
